@@ -31,6 +31,10 @@ def tlc_design(ck, tier):
     zero = [a for a, (d, t) in r.coverage.items() if t == 0]
     if zero:
         raise MachineryError("vacuity: actions never taken in MPStudy: %s" % zero)
+    rt = run_tlc("MC_MPStudy", "MPStudy_transient.cfg", timeout=1200)
+    ck.add_tlc(rt, "MPStudy with transient failures (the failing set changes between incarnations): NoRedo, ExactlyOneResult")
+    if not rt.ok:
+        raise MachineryError("MPStudy_transient: %s violated" % rt.violated)
     controls = {"MPStudy_asis_order.cfg": "C18_RestartCompletes", "MPStudy_asis_closure.cfg": "C18_OwnIdentity",
                 "MPStudy_asis_parser.cfg": "C18_RestartCompletes", "MPStudy_asis_header.cfg": "C18_RestartCompletes"}
     neg = {}
@@ -49,12 +53,26 @@ def scenarios_systematic(tier, rng):
     failsets = [[], [1], [0, 3], [2, 4, 5, 7], [0, 1, 2, 3, 4, 5, 6, 7], [6]]
     n = 0
 
-    def add(kills, fail, kind, p, incs=None, pool="pathos", extra_inc=0):
+    def add(kills, fail, kind, p, incs=None, pool="pathos", extra_inc=0, fail_by_inc=None):
         nonlocal n
         n += 1
         delays = {str(c): rng.choice([0, 0, 1, 3, 8, 15]) for c in range(NCASE)}
-        scs.append({"id": "s%04d" % n, "fail": fail, "kind": kind, "procs": p, "pool": pool, "kills": kills,
-                    "incs": incs or (len(kills) + 1 + extra_inc), "delays": delays, "origin": "systematic"})
+        sc = {"id": "s%04d" % n, "fail": fail, "kind": kind, "procs": p, "pool": pool, "kills": kills,
+              "incs": incs or (len(kills) + 1 + extra_inc), "delays": delays, "origin": "systematic"}
+        if fail_by_inc:
+            sc["fail_by_inc"] = fail_by_inc
+            sc["incs"] = len(fail_by_inc)
+        scs.append(sc)
+    # transient failures: a case raises in one incarnation, succeeds in a later one (its error.log stays), then the study is run again
+    add([], [2, 5], "list", 4, fail_by_inc=[[2, 5], [5], [], []])
+    add([], [0, 3, 7], "tuple", 8, fail_by_inc=[[0, 3, 7], [3], [3], [], []])
+    add([{"inc": 2, "ev": "WMarker", "c": 1}], [1, 6], "empty_tuple", 4, fail_by_inc=[[1, 6], [6], [], []])
+    if tier == "thorough":
+        for k in range(12):
+            f1 = sorted(rng.sample(range(NCASE), rng.randint(1, 4)))
+            f2 = sorted(rng.sample(f1, rng.randint(0, len(f1) - 1))) if len(f1) > 1 else []
+            kills = [{"inc": 2, "ev": rng.choice(["WMarker", "WResEnd", "WErr", "WExec"]), "c": rng.choice(f1)}] if k % 2 else []
+            add(kills, f1, kinds[k % 3], procs[k % 3], fail_by_inc=[f1, f2, [], [], []])
     # single kill after every worker step of a few / all cases
     cases = [0, 3, 7] if tier == "quick" else list(range(NCASE))
     i = 0
@@ -164,6 +182,12 @@ def run_scenarios(scs):
     return traces
 
 
+def fail_by_inc(t):
+    n = max([e["inc"] for e in t["events"]] + [t.get("incs", 1)])
+    fbi = t.get("fail_by_inc")
+    return [list(fbi[i]) if fbi and i < len(fbi) else list(t["fail"]) for i in range(n)]
+
+
 def direct_clauses(t):
     """Decide the clauses of C18 on one recorded execution; returns list of (key, description)."""
     out = []
@@ -208,7 +232,14 @@ def direct_clauses(t):
                 out.append((dict(base, clause="exactly_one_result", n=len(mine)),
                             "incarnation %d: case %d has %d results" % (fin["inc"], c, len(mine))))
             for r in mine:
-                exp = "None" if c in fail else "F"
+                # a case that completed in an earlier incarnation is loaded (success); otherwise this incarnation ran it
+                before = set()
+                for e2 in ev:
+                    if e2["inc"] >= fin["inc"]:
+                        break
+                    if e2["ev"] in ("Crash", "End"):
+                        before |= {cc for cc in range(NCASE) if e2["marker"][cc] and e2["res"][cc] == "full"}
+                exp = "F" if c in before else ("None" if c in set(fail_by_inc(t)[fin["inc"] - 1]) else "F")
                 if r["val"] != exp:
                     out.append((dict(base, clause="result_equals_uninterrupted", got=r["val"]),
                                 "incarnation %d: case %d result class %s, expected %s" % (fin["inc"], c, r["val"], exp)))
@@ -246,7 +277,7 @@ def validate_traces(ck, traces, cfg="MPStudyTrace_fixed.cfg", label="repaired"):
         rounds += 1
         wd = scratch("c18val")
         tf = os.path.join(wd, "traces.json")
-        json.dump([{"fail": traces[i]["fail"], "kind": traces[i]["kind"], "events": traces[i]["events"]} for i in todo],
+        json.dump([{"fail": traces[i]["fail"], "fail_by_inc": fail_by_inc(traces[i]), "kind": traces[i]["kind"], "events": traces[i]["events"]} for i in todo],
                   open(tf, "w"))
         r = run_tlc("MC_MPStudyTrace", cfg, workdir=wd, workers=1, expect_violation=True, timeout=1800,
                     env={"TRACE_FILE": tf})
@@ -387,8 +418,8 @@ def study_dirs_extension(ck, tier, seed):
                 observed_pp_gap = True
     ck.notes["study_dirs_extension"] = {"behaviours": len(scs), "incarnations_replayed": n_inc, "sigkills": n_kill,
                                         "observation": "with force_post_process_rerun=False a study killed inside its post-processing function is later reported complete without the function ever finishing (TLC counterexample of StudyDirs_norerun.cfg, reproduced on the real code: %s); default options are safe" % observed_pp_gap}
-    if rn.trace and not observed_pp_gap:
-        raise MachineryError("the CompletedPostProcessed counterexample did not reproduce on the real code: the StudyDirs model misdescribes post-processing")
+    if rn.trace and not observed_pp_gap and not ck.violations:
+        ck.violation({"clause": "study_dirs_conformance", "end": "counterexample"}, "the CompletedPostProcessed counterexample of StudyDirs_norerun.cfg did not reproduce on the real code: the real function no longer follows the StudyDirs model", {})
 
 
 def run(tier, seed):
